@@ -49,7 +49,17 @@ def multi_statement(seed, i):
             lambda: "",
         ])())
     body.append("return %s;" % rng.choice(["this.opts?.prefix.trim()", "this?.p.trim()", op(), "x"]))
-    return "function f(a,b,o,k,r,q,x,y,z,i,arr){\n  " + "\n  ".join(body) + "\n}\n"
+    # the header may spread over several lines: what is injected at the start of the body belongs to the body's lines
+    head, tail = rng.choice([
+        ("function f(a,b,o,k,r,q,x,y,z,i,arr){", "}"),
+        ("function f(a,b,o,k,r,q,x,y,z,i,arr){", "}"),
+        ("function f(a,b,o,\n  k,r,q,\n  x,y,z,i,arr\n) {", "}"),
+        ("const f = function (\n  a,b,o,k,r,q,x,y,z,i,arr\n)\n{", "};"),
+        ("class C {\n  m(\n    a,b,o,k,r,q,x,y,z,i,arr\n  )\n  {", "}\n}"),
+        ("const f = (\n  a,b,o,k,r,q,x,y,z,i,arr\n) =>\n{", "};"),
+        ("const o2 = {\n  async *m(a,b,o,k,r,q,\n    x,y,z,i,arr)\n  {", "}\n};"),
+    ])
+    return head + "\n  " + "\n  ".join(body) + "\n" + tail + "\n"
 
 
 def cases(O):
